@@ -83,8 +83,8 @@ prop("C16",
 prop("C04", guards=True,
      rule="44 target types (all integer widths incl. 128-bit, f32/f64, char, String, unit, Option, Vec, tuples, fixed arrays, maps keyed by string/integer/bool/unit-enum, structs with optional/defaulted/unknown/denied/borrowed/flattened fields, newtype/tuple/unit structs, externally/internally/adjacently tagged and untagged enums, byte buffers, serde_json::Value) x type-directed texts in three modes (matching, near-matching: range boundaries, wrong width, missing/extra/duplicate fields, wrong framing, quoted numbers; mismatching + byte mutations) x {from_str, from_slice}; sonic-rs result (Ok value via Debug / Err) must equal serde_json's for the same type",
      assumptions=["serde_json 1.0.151 (float_roundtrip) is the reference named by the property; serde-derive's visitors are third-party", "documented differences excluded by the generator: nesting beyond 128, f32 overflow to infinity (F19), strings with escapes/controls as byte buffers (F21)"])
-prop("C19",
-     rule="for each of the 44 types: values obtained from matching texts: to_value(x) vs DOM of to_string(x), from_value(to_value(x)) = x, from_str(to_string(x)) = x; 2500 generated values of the whole serde data model: to_value must denote the value (Model/SerVal.v; f32 widened exactly), agree with the text route (except f32: F24) and fail exactly for integers beyond 64 bits; 1500 pairs of DOM values (parsed vs rebuilt with shuffled members vs perturbed): reflexive, symmetric, order- and construction-insensitive equality agreeing with the dumps; comparison with primitives",
+prop("C19", unit_ops={"valeq"},
+     rule="for each of the 44 types: values obtained from matching texts: to_value(x) vs DOM of to_string(x), from_value(to_value(x)) = x, from_str(to_string(x)) = x; 2500 generated values of the whole serde data model: to_value must denote the value (Model/SerVal.v; f32 widened exactly), agree with the text route (except f32: F24) and fail exactly for integers beyond 64 bits; 1500 pairs of DOM values (parsed vs rebuilt with shuffled members vs perturbed): reflexive, symmetric, order- and construction-insensitive equality agreeing with the dumps; comparison with primitives; `==` of two parsed documents in both directions against the extracted Model/ObjEq.obj_eq applied at every object with the operands exchanged where partial_eq.rs exchanges them (op valeq: repeated member names, shuffled / damaged / renamed variants, so the asymmetric outcomes of F7 are predicted case by case)",
      assumptions=["hash-map iteration order is irrelevant (sorted dumps)"])
 
 prop("C17",
